@@ -1,602 +1,6 @@
 /-
-  Helper lemmas for KestrelProps/StreamSrc.lean: the Lean code *generated from* `src/crypto/src/encrypt.rs` and `decrypt.rs`
-  (KestrelModel/GeneratedStream.lean, namespace `Kestrel.StreamSrc`, produced by tools/rs2lean_stream.py) equals the
-  hand-written I/O-level model `encryptChunksIO` / `decryptChunksIO` (KestrelModel/Chunks.lean) on every source / sink script.
-
-  Route, for each of the two functions:
-    *_body : one run of the translated loop body (`<fn>.loop1`) = one unfolding of `encLoopIO` / `decLoopIO`, as a `Rs.Flow`;
-    *_loop : `Rs.loop` of the body with any fuel above the measure = the model loop with any fuel above the measure;
-    *_eq   : the function itself.
-  File level (`pass_encrypt`, `pass_decrypt`, `key_encrypt`, `key_decrypt`): header I/O unfolded against `passEncryptIO` … ,
-  then the chunk theorem; `collapseFormat` / `keyResult` say how the model's result classes read as the Rust results.
-  The buffers of the Rust code are related to the model's values by simple invariants: `buff.length = cs`,
-  `auth_data.length = aad.len() + 8`, `prev[..prev_read]` is the model's `prev` (the rest of `prev` is stale), `done = false`
-  at the head of the decrypt loop.
+  Umbrella module: the helper lemmas for KestrelProps/StreamSrc*.lean live in KestrelProofs/StreamSrcCommon.lean (shared),
+  StreamSrcEnc.lean (`encrypt.rs`) and StreamSrcDec.lean (`decrypt.rs`); this module only imports them.
 -/
-import KestrelModel.GeneratedStream
-import KestrelProofs.EncIO
-import KestrelProofs.IOBasics
-import KestrelProofs.DecIO
-import KestrelModel.File
-namespace Kestrel
-namespace StreamSrc
-
-theorem copyFromSlice_eq {α} (dst src : List α) (h : dst.length = src.length) : Rs.copyFromSlice dst src = src := by
-  unfold Rs.copyFromSlice
-  rw [h, List.take_length, List.drop_eq_nil_of_le (Nat.le_of_eq h), List.append_nil]
-
-theorem be32_truncU32 (n : Nat) : be32 (Rs.truncU32 n) = be32 n := by
-  unfold be32 Rs.truncU32
-  have h1 : n % 2^32 / 2^24 % 256 = n / 2^24 % 256 := by omega
-  have h2 : n % 2^32 / 2^16 % 256 = n / 2^16 % 256 := by omega
-  have h3 : n % 2^32 / 2^8 % 256 = n / 2^8 % 256 := by omega
-  have h4 : n % 2^32 % 256 = n % 256 := by omega
-  rw [h1, h2, h3, h4]
-
-/-- the three `copy_from_slice` calls that fill `auth_data` -/
-theorem auth_fill (auth aad lastB lenB : Bytes) (ha : auth.length = aad.length + 8) (h1 : lastB.length = 4) (h2 : lenB.length = 4) :
-    let a1 := Rs.copyFromSlice (auth.take aad.length) aad ++ auth.drop aad.length
-    let a2 := a1.take aad.length ++ Rs.copyFromSlice ((a1.drop aad.length).take (aad.length + 4 - aad.length)) lastB ++ a1.drop (aad.length + 4)
-    let a3 := a2.take (aad.length + 4) ++ Rs.copyFromSlice (a2.drop (aad.length + 4)) lenB
-    a3 = aad ++ lastB ++ lenB := by
-  intro a1 a2 a3
-  have e1 : a1 = aad ++ auth.drop aad.length := by
-    show Rs.copyFromSlice (auth.take aad.length) aad ++ auth.drop aad.length = _
-    rw [copyFromSlice_eq _ _ (by rw [List.length_take]; omega)]
-  have e2 : a2 = aad ++ lastB ++ auth.drop (aad.length + 4) := by
-    show a1.take aad.length ++ Rs.copyFromSlice ((a1.drop aad.length).take (aad.length + 4 - aad.length)) lastB ++ a1.drop (aad.length + 4) = _
-    rw [e1, List.take_left', List.drop_left', copyFromSlice_eq _ _ (by rw [List.length_take, List.length_drop]; omega)]
-    congr 1
-    rw [show aad.length + 4 = aad.length + 4 from rfl, ← List.drop_drop, List.drop_left', List.drop_drop]
-    rfl; rfl; rfl
-  show a2.take (aad.length + 4) ++ Rs.copyFromSlice (a2.drop (aad.length + 4)) lenB = _
-  have hl : (aad ++ lastB).length = aad.length + 4 := by rw [List.length_append, h1]
-  rw [e2, ← hl, List.take_left', List.drop_left', copyFromSlice_eq _ _ (by rw [List.length_drop]; omega)]
-  rfl; rfl
-
-/-- the three `copy_from_slice` calls that fill `chunk_header` -/
-theorem hdr_fill (h0 c lastB lenB : Bytes) (hh : h0.length = 16) (hc : c.length = 8) (h1 : lastB.length = 4) (h2 : lenB.length = 4) :
-    let a1 := Rs.copyFromSlice (h0.take 8) c ++ h0.drop 8
-    let a2 := a1.take 8 ++ Rs.copyFromSlice ((a1.drop 8).take (12 - 8)) lastB ++ a1.drop 12
-    let a3 := a2.take 12 ++ Rs.copyFromSlice (a2.drop 12) lenB
-    a3 = c ++ lastB ++ lenB := by
-  intro a1 a2 a3
-  have e1 : a1 = c ++ h0.drop 8 := by
-    show Rs.copyFromSlice (h0.take 8) c ++ h0.drop 8 = _
-    rw [copyFromSlice_eq _ _ (by rw [List.length_take]; omega)]
-  have e2 : a2 = c ++ lastB ++ h0.drop 12 := by
-    show a1.take 8 ++ Rs.copyFromSlice ((a1.drop 8).take (12 - 8)) lastB ++ a1.drop 12 = _
-    rw [e1, List.take_left' hc, List.drop_left' hc, copyFromSlice_eq _ _ (by rw [List.length_take, List.length_drop]; omega)]
-    congr 1
-    rw [show 12 = 8 + 4 from rfl, ← List.drop_drop, List.drop_left' hc, List.drop_drop]
-  show a2.take 12 ++ Rs.copyFromSlice (a2.drop 12) lenB = _
-  have hl : (c ++ lastB).length = 12 := by rw [List.length_append, h1, hc]
-  rw [e2, List.take_left' hl, List.drop_left' hl, copyFromSlice_eq _ _ (by rw [List.length_drop]; omega)]
-
-
-theorem hdr_fill' (h0 c lastB lenB : Bytes) (hh : h0.length = 16) (hc : c.length = 8) (h1 : lastB.length = 4) (h2 : lenB.length = 4) :
-    List.take 12 (List.take 8 (Rs.copyFromSlice (List.take 8 h0) c ++ List.drop 8 h0) ++
-        Rs.copyFromSlice (List.take (12 - 8) (List.drop 8 (Rs.copyFromSlice (List.take 8 h0) c ++ List.drop 8 h0))) lastB ++
-        List.drop 12 (Rs.copyFromSlice (List.take 8 h0) c ++ List.drop 8 h0)) ++
-      Rs.copyFromSlice (List.drop 12 (List.take 8 (Rs.copyFromSlice (List.take 8 h0) c ++ List.drop 8 h0) ++
-        Rs.copyFromSlice (List.take (12 - 8) (List.drop 8 (Rs.copyFromSlice (List.take 8 h0) c ++ List.drop 8 h0))) lastB ++
-        List.drop 12 (Rs.copyFromSlice (List.take 8 h0) c ++ List.drop 8 h0))) lenB = c ++ lastB ++ lenB :=
-  hdr_fill h0 c lastB lenB hh hc h1 h2
-
-theorem auth_fill' (auth aad lastB lenB : Bytes) (ha : auth.length = aad.length + 8) (h1 : lastB.length = 4) (h2 : lenB.length = 4) :
-    List.take (aad.length + 4) (List.take aad.length (Rs.copyFromSlice (List.take aad.length auth) aad ++ List.drop aad.length auth) ++
-        Rs.copyFromSlice (List.take (aad.length + 4 - aad.length) (List.drop aad.length
-          (Rs.copyFromSlice (List.take aad.length auth) aad ++ List.drop aad.length auth))) lastB ++
-        List.drop (aad.length + 4) (Rs.copyFromSlice (List.take aad.length auth) aad ++ List.drop aad.length auth)) ++
-      Rs.copyFromSlice (List.drop (aad.length + 4) (List.take aad.length (Rs.copyFromSlice (List.take aad.length auth) aad ++ List.drop aad.length auth) ++
-        Rs.copyFromSlice (List.take (aad.length + 4 - aad.length) (List.drop aad.length
-          (Rs.copyFromSlice (List.take aad.length auth) aad ++ List.drop aad.length auth))) lastB ++
-        List.drop (aad.length + 4) (Rs.copyFromSlice (List.take aad.length auth) aad ++ List.drop aad.length auth))) lenB = aad ++ lastB ++ lenB :=
-  auth_fill auth aad lastB lenB ha h1 h2
-
-open encrypt in
-theorem enc_body (A : Aead) (key aad : Bytes) (cs : Nat) (s : Src) (k : Snk) (ctr : Nat) (done : Bool) (buff auth prev junk : Bytes)
-    (hb : buff.length = cs) (ha : auth.length = aad.length + 8) :
-    encrypt_chunks.loop1 A key aad (s, buff, done, auth, k, prev ++ junk, prev.length, ctr) =
-      match s.read cs with
-      | (.err, s') => .ret (.ioRead, s', k)
-      | (.interrupted, s') => .ret (.ioRead, s', k)
-      | (.got r, s') =>
-        if r.length ≠ 0 && done then .ret (.unexpectedData, s', k) else
-        let done' := done || r.length == 0
-        let lastB := be32 (if done' then 1 else 0)
-        let lenB := be32 prev.length
-        match writeRecord k (s'.pos, s'.nreads) (be64 ctr ++ lastB ++ lenB) (A.enc key ctr (aad ++ lastB ++ lenB) prev) with
-        | (false, k') => .ret (.ioWrite, s', k')
-        | (true, k') =>
-          if done' then .brk (s', r ++ buff.drop r.length, done', aad ++ lastB ++ lenB, k', prev ++ junk, prev.length, ctr)
-          else .next (s', r ++ buff.drop r.length, done', aad ++ lastB ++ lenB, k', r ++ buff.drop r.length, r.length, ctr + 1) := by
-  unfold encrypt_chunks.loop1
-  simp only [RsIO.read, hb]
-  rcases hrd : s.read cs with ⟨r | _ | _, s'⟩
-  · simp only [hdr_fill' _ _ _ _ (List.length_replicate ..) (be64_length _) (be32_length _) (be32_length _),
-      auth_fill' _ _ _ _ ha (be32_length _) (be32_length _), be32_truncU32, List.take_left' rfl, Except.mapError]
-    cases done <;> by_cases hr : r.length = 0 <;>
-      simp [hr, writeRecord, RsIO.writeAll, RsIO.flush, write_err]
-    all_goals
-      rcases hw1 : Snk.writeAll (s'.pos, s'.nreads) _ k (be64 ctr ++ _) with ⟨_ | _, k1⟩
-      · simp only []
-      · simp only []
-        rcases hw2 : Snk.writeAll (s'.pos, s'.nreads) _ k1 _ with ⟨_ | _, k2⟩
-        · simp only []
-        · simp only []
-          rcases hf : k2.flush with ⟨_ | _, k3⟩ <;> simp [hr]
-  · simp only [Except.mapError, read_err]
-  · simp only [Except.mapError, read_err]
-
-/-- what `encrypt_chunks` does with the outcome of its loop -/
-def encFinish : Rs.LoopOut (Src × Bytes × Bool × Bytes × Snk × Bytes × Nat × Nat) (Res × Src × Snk) → Option (Res × Src × Snk)
-  | .ret r => some r
-  | .outOfFuel => none
-  | .brk (p, _, _, _, c, _) => some (Res.ok, p, c)
-
-open encrypt in
-theorem enc_loop (A : Aead) (key aad : Bytes) (cs : Nat) : ∀ (g f ctr : Nat) (prev : Bytes) (done : Bool) (s : Src) (k : Snk)
-    (buff auth junk : Bytes), buff.length = cs → auth.length = aad.length + 8 →
-    s.inp.length + s.script.length + 1 ≤ g → s.inp.length + s.script.length + 1 ≤ f →
-    encFinish (Rs.loop (encrypt_chunks.loop1 A key aad) g (s, buff, done, auth, k, prev ++ junk, prev.length, ctr)) =
-      some (encLoopIO A key aad cs f ctr prev done s k) := by
-  intro g
-  induction g with
-  | zero => intro f ctr prev done s k buff auth junk _ _ hg _; omega
-  | succ g ih =>
-    intro f ctr prev done s k buff auth junk hb ha hg hf
-    obtain ⟨f, rfl⟩ : ∃ f', f = f' + 1 := ⟨f - 1, by omega⟩
-    rw [Rs.loop_succ, enc_body A key aad cs s k ctr done buff auth prev junk hb ha]
-    simp only [encLoopIO]
-    rcases hrd : s.read cs with ⟨r | _ | _, s'⟩
-    · simp only []
-      by_cases hu : (r.length ≠ 0 && done) = true
-      · simp only [hu, if_true, encFinish]
-      · simp only [hu, Bool.false_eq_true, if_false]
-        rcases hw : writeRecord k (s'.pos, s'.nreads) _ _ with ⟨_ | _, k'⟩
-        · simp only [encFinish]
-        · simp only []
-          by_cases hd : (done || r.length == 0) = true
-          · simp only [hd, if_true, encFinish]
-          · have hr : r.length ≠ 0 := by
-              intro h0; apply hd; simp [h0]
-            obtain ⟨m, hmc, _, _, hrl, _⟩ := Src.read_got hrd
-            have hm := EncIO.read_got_measure hrd hr
-            have hd' : (done || r.length == 0) = false := by simpa using hd
-            simp only [hd', Bool.false_eq_true, if_false]
-            exact ih f (ctr + 1) r false s' k' (r ++ buff.drop r.length) _ (buff.drop r.length)
-              (by rw [List.length_append, List.length_drop]; omega)
-              (by simp only [List.length_append, be32_length]) (by omega) (by omega)
-    · simp only [encFinish]
-    · simp only [encFinish]
-
-open encrypt in
-/-- the translated `encrypt_chunks` is the hand-written I/O-level model, for every fuel at or above the bound -/
-theorem encrypt_chunks_eq (A : Aead) (key aad : Bytes) (cs : Nat) (s : Src) (k : Snk) (fuel : Nat)
-    (hf : s.inp.length + s.script.length + 2 ≤ fuel) :
-    encrypt_chunks A s k key aad cs fuel = some (encryptChunksIO A key aad cs s k) := by
-  unfold encrypt_chunks encryptChunksIO
-  simp only [RsIO.read, List.length_replicate]
-  rcases hrd : s.read cs with ⟨r | _ | _, s'⟩
-  · simp only [Except.mapError]
-    have e : (if (List.length r == 0) = true then true else false) = (r.length == 0) := by
-      cases (r.length == 0) <;> rfl
-    obtain ⟨m, hmc, _, _, hrl, hi, _, _, pre, hsc⟩ := Src.read_got hrd
-    have hm : s'.inp.length + s'.script.length ≤ s.inp.length + s.script.length := by
-      rw [hi, hsc, List.length_drop, List.length_append]; omega
-    rw [e]
-    have h := enc_loop A key aad cs fuel (s'.inp.length + s'.script.length + 2) 0 r (r.length == 0) s' k (r ++ List.drop r.length (List.replicate cs 0)) (List.replicate (aad.length + 8) 0)
-      (List.drop r.length (List.replicate cs 0))
-      (by rw [List.length_append, List.length_drop, List.length_replicate]; omega)
-      (List.length_replicate ..) (by omega) (by omega)
-    revert h
-    generalize Rs.loop (encrypt_chunks.loop1 A key aad) fuel _ = x
-    intro h
-    rcases x with ⟨p, b, d, a, c, pv, pr, n⟩ | r | _ <;> exact h
-  · simp only [Except.mapError, read_err]
-  · simp only [Except.mapError, read_err]
-
-/-! ### decrypt -/
-
-/-- case analysis on `write_all` and `flush` at the end of the decrypt loop body -/
-local macro "dec_tail" k:term "," s3:term "," pt:term : tactic => `(tactic|
-  (rcases hw : Snk.writeAll (Src.pos $s3, Src.nreads $s3) _ $k $pt with ⟨_ | _, k1⟩
-   · simp [RsIO.writeAll, hw, decrypt.write_err]
-   · rcases hf : Snk.flush k1 with ⟨_ | _, k2⟩ <;> simp [RsIO.writeAll, RsIO.flush, hw, hf, decrypt.write_err]))
-
-theorem dec_read_err (e : RsIO.IoError) : decrypt.read_err e = Res.ioRead := by
-  unfold decrypt.read_err; split <;> rfl
-
-open decrypt in
-theorem dec_body (A : Aead) (key aad : Bytes) (cs : Nat) (s : Src) (k : Snk) (ctr : Nat) (buffer auth : Bytes)
-    (hb : buffer.length = cs + 16) (ha : auth.length = aad.length + 8) :
-    decrypt_chunks.loop1 A key aad cs (s, buffer, auth, false, k, ctr) =
-      match Src.readExact (s.fuel 16) s 16 with
-      | (none, s1) => .ret (.ioRead, s1, k)
-      | (some hdr, s1) =>
-        let lastB := (hdr.drop 8).take 4
-        let lenB := hdr.drop 12
-        let len := beVal lenB
-        if len > cs then .ret (.chunkLen, s1, k) else
-        match Src.readExact (s1.fuel (len + 16)) s1 (len + 16) with
-        | (none, s2) => .ret (.ioRead, s2, k)
-        | (some body, s2) =>
-          match A.dec key ctr (aad ++ lastB ++ lenB) body with
-          | none => .ret (.auth, s2, k)
-          | some pt =>
-            let last := beVal lastB == 1
-            let probe : Option Res × Src :=
-              if last then
-                match s2.read 1 with
-                | (.err, s3) => (some .ioRead, s3)
-                | (.interrupted, s3) => (some .ioRead, s3)
-                | (.got b, s3) => if b.length ≠ 0 then (some .unexpectedData, s3) else (none, s3)
-              else (none, s2)
-            match probe with
-            | (some e, s3) => .ret (e, s3, k)
-            | (none, s3) =>
-              match Snk.writeAll (s3.pos, s3.nreads) (k.wfuel pt) k pt with
-              | (false, k1) => .ret (.ioWrite, s3, k1)
-              | (true, k1) =>
-                match k1.flush with
-                | (false, k2) => .ret (.ioWrite, s3, k2)
-                | (true, k2) =>
-                  if last then .brk (s3, body ++ buffer.drop (len + 16), aad ++ lastB ++ lenB, true, k2, ctr)
-                  else .next (s3, body ++ buffer.drop (len + 16), aad ++ lastB ++ lenB, false, k2, ctr + 1) := by
-  unfold decrypt_chunks.loop1
-  simp only [RsIO.readExact, List.length_replicate, TAG_SIZE]
-  rcases hr1 : Src.readExact (s.fuel 16) s 16 with ⟨_ | hdr, s1⟩
-  · simp only [Except.mapError, dec_read_err]
-  · obtain ⟨_, hhl, _⟩ := Src.readExact_some _ _ _ _ _ hr1
-    have hl1 : (List.take (12 - 8) (List.drop 8 hdr)).length = 4 := by
-      rw [List.length_take, List.length_drop, hhl]; rfl
-    have hl2 : (List.drop 12 hdr).length = 4 := by rw [List.length_drop, hhl]
-    simp only [Except.mapError, dec_read_err, auth_fill' _ _ _ _ ha hl1 hl2]
-    by_cases hlen : beVal (List.drop 12 hdr) > cs
-    · simp only [hlen, decide_true, if_true, Rs.Step.andThen_exit]
-    · have hbl : (List.take (beVal (List.drop 12 hdr) + 16) buffer).length = beVal (List.drop 12 hdr) + 16 := by
-        rw [List.length_take, hb]; omega
-      simp only [hlen, decide_false, Bool.false_eq_true, if_false, Rs.Step.andThen_cont, hbl]
-      rcases hr2 : Src.readExact (s1.fuel (beVal (List.drop 12 hdr) + 16)) s1 (beVal (List.drop 12 hdr) + 16) with ⟨_ | body, s2⟩
-      · simp only []
-      · obtain ⟨_, hbody, _⟩ := Src.readExact_some _ _ _ _ _ hr2
-        simp only [List.take_left' hbody, show (12 - 8) = 4 from rfl]
-        rcases hdec : A.dec key ctr _ body with _ | pt
-        · simp [Rs.okOr, errors.From_ChaPolyDecryptError_for_DecryptError]
-        · simp only [Rs.okOr]
-          by_cases hlast : (beVal (List.take 4 (List.drop 8 hdr)) == 1) = true
-          · simp only [hlast, if_true, RsIO.read, List.length_replicate]
-            rcases hp : s2.read 1 with ⟨b | _ | _, s3⟩
-            · by_cases hb0 : b.length = 0
-              · simp [hb0]
-                dec_tail k, s3, pt
-              · simp [hb0]
-            · simp
-            · simp
-          · simp [hlast]
-            dec_tail k, s2, pt
-
-/-- what `decrypt_chunks` does with the outcome of its loop -/
-def decFinish : Rs.LoopOut (Src × Bytes × Bytes × Bool × Snk × Nat) (Res × Src × Snk) → Option (Res × Src × Snk)
-  | .ret r => some r
-  | .outOfFuel => none
-  | .brk (c, _, _, _, p, _) => some (Res.ok, c, p)
-
-open decrypt in
-theorem dec_loop (A : Aead) (key aad : Bytes) (cs : Nat) : ∀ (g f ctr : Nat) (s : Src) (k : Snk) (buffer auth : Bytes),
-    buffer.length = cs + 16 → auth.length = aad.length + 8 → s.inp.length + 1 ≤ g → s.inp.length + 1 ≤ f →
-    decFinish (Rs.loop (decrypt_chunks.loop1 A key aad cs) g (s, buffer, auth, false, k, ctr)) =
-      some (decLoopIO A key aad cs f ctr s k) := by
-  intro g
-  induction g with
-  | zero => intro f ctr s k buffer auth _ _ hg _; omega
-  | succ g ih =>
-    intro f ctr s k buffer auth hb ha hg hf
-    obtain ⟨f, rfl⟩ : ∃ f', f = f' + 1 := ⟨f - 1, by omega⟩
-    rw [Rs.loop_succ, dec_body A key aad cs s k ctr buffer auth hb ha]
-    simp only [decLoopIO]
-    rcases hr1 : Src.readExact (s.fuel 16) s 16 with ⟨_ | hdr, s1⟩
-    · simp only [decFinish]
-    · simp only []
-      obtain ⟨_, hhl, hi1, _⟩ := Src.readExact_some _ _ _ _ _ hr1
-      have h16 := Src.readExact_some_len hr1
-      by_cases hlen : beVal (List.drop 12 hdr) > cs
-      · simp only [hlen, if_true, decFinish]
-      · simp only [hlen, if_false]
-        rcases hr2 : Src.readExact (s1.fuel (beVal (List.drop 12 hdr) + 16)) s1 (beVal (List.drop 12 hdr) + 16) with ⟨_ | body, s2⟩
-        · simp only [decFinish]
-        · simp only []
-          obtain ⟨_, hbody, hi2, _⟩ := Src.readExact_some _ _ _ _ _ hr2
-          rcases hdec : A.dec key ctr _ body with _ | pt
-          · simp only [decFinish]
-          · simp only []
-            by_cases hlast : (beVal (List.take 4 (List.drop 8 hdr)) == 1) = true
-            · simp only [hlast, if_true]
-              rcases hp : s2.read 1 with ⟨b | _ | _, s3⟩
-              · simp only []
-                by_cases hb0 : b.length ≠ 0
-                · rw [if_pos hb0]
-                  simp only [decFinish]
-                · rw [if_neg hb0]
-                  simp only []
-                  rcases hw : Snk.writeAll (s3.pos, s3.nreads) _ k pt with ⟨_ | _, k1⟩
-                  · simp only [decFinish]
-                  · simp only []
-                    rcases hf : k1.flush with ⟨_ | _, k2⟩ <;> simp only [decFinish]
-              · simp only [decFinish]
-              · simp only [decFinish]
-            · simp only [hlast, Bool.false_eq_true, if_false]
-              rcases hw : Snk.writeAll (s2.pos, s2.nreads) _ k pt with ⟨_ | _, k1⟩
-              · simp only [decFinish]
-              · simp only []
-                rcases hf : k1.flush with ⟨_ | _, k2⟩
-                · simp only [decFinish]
-                · simp only []
-                  have hm : s2.inp.length + 16 ≤ s.inp.length := by
-                    rw [hi2, hi1, List.length_drop, List.length_drop]; omega
-                  exact ih f (ctr + 1) s2 k2 _ _
-                    (by rw [List.length_append, List.length_drop, hbody, hb]; omega)
-                    (by simp only [List.length_append, List.length_take, List.length_drop, hhl]; omega)
-                    (by omega) (by omega)
-
-open decrypt in
-/-- the translated `decrypt_chunks` is the hand-written I/O-level model, for every fuel at or above the bound -/
-theorem decrypt_chunks_eq (A : Aead) (key aad : Bytes) (cs : Nat) (s : Src) (k : Snk) (fuel : Nat)
-    (hf : s.inp.length + 1 ≤ fuel) :
-    decrypt_chunks A s k key aad cs fuel = some (decryptChunksIO A key aad cs s k) := by
-  unfold decrypt_chunks decryptChunksIO
-  have h := dec_loop A key aad cs fuel (s.inp.length + 1) 0 s k (List.replicate (cs + TAG_SIZE) 0) (List.replicate (aad.length + 8) 0)
-    (by rw [List.length_replicate]; rfl) (List.length_replicate ..) hf (Nat.le_refl _)
-  simp only []
-  revert h
-  generalize Rs.loop (decrypt_chunks.loop1 A key aad cs) fuel _ = x
-  intro h
-  rcases x with ⟨c, b, a, d, p, n⟩ | r | _ <;> exact h
-
-/-! ### transfer of properties of the hand-written model to the translated code -/
-
-open EncIO in
-/-- every outcome of the translated `encrypt_chunks` is one of four, and the two I/O outcomes have a cause in the scripts -/
-theorem enc_failures_surface (A : Aead) (key aad : Bytes) (cs : Nat) (s : Src) (k : Snk) (fuel : Nat)
-    (hf : s.inp.length + s.script.length + 2 ≤ fuel) :
-    ∃ res s' k', encrypt.encrypt_chunks A s k key aad cs fuel = some (res, s', k') ∧
-      (res = .ok ∨ res = .ioRead ∨ res = .ioWrite ∨ res = .unexpectedData) ∧
-      (res = .ioRead → Src.hasErr s) ∧ (res = .ioWrite → ¬ Snk.benign k) := by
-  refine ⟨_, _, _, encrypt_chunks_eq A key aad cs s k fuel hf, encryptChunksIO_res A key aad cs s k,
-    encryptChunksIO_ioRead A key aad cs s k, encryptChunksIO_ioWrite A key aad cs s k⟩
-
-open EncIO in
-theorem enc_prefix (A : Aead) (key aad : Bytes) (cs : Nat) (s : Src) (k : Snk) (fuel : Nat)
-    (hf : s.inp.length + s.script.length + 2 ≤ fuel) :
-    ∃ res s' k' p, encrypt.encrypt_chunks A s k key aad cs fuel = some (res, s', k') ∧ k'.out = k.out ++ p ∧
-      p <+: (encryptChunks A key aad (Src.reads cs s)).1 ∧
-      (res = .ok → p = (encryptChunks A key aad (Src.reads cs s)).1) := by
-  obtain ⟨p, h1, h2, h3⟩ := encryptChunksIO_prefix A key aad cs s k
-  exact ⟨_, _, _, p, encrypt_chunks_eq A key aad cs s k fuel hf, h1, h2, h3⟩
-
-open EncIO in
-theorem enc_faultFree (A : Aead) (key aad : Bytes) (cs : Nat) (hcs : 0 < cs) (s : Src) (k : Snk) (fuel : Nat)
-    (hf : s.inp.length + s.script.length + 2 ≤ fuel) (hs : Src.faultFree s) (hk : Snk.benign k) :
-    ∃ s' k', encrypt.encrypt_chunks A s k key aad cs fuel = some (.ok, s', k') ∧
-      k'.out = k.out ++ serialize A key aad be64 0 (fileChunks (Src.reads cs s)) ∧ (Src.reads cs s).flatten = s.inp := by
-  obtain ⟨h1, h2⟩ := encryptChunksIO_faultFree A key aad cs hcs s k hs hk
-  rw [encryptChunks_reads] at h1 h2
-  refine ⟨(encryptChunksIO A key aad cs s k).2.1, (encryptChunksIO A key aad cs s k).2.2, ?_, h2, reads_flatten cs hcs s hs⟩
-  have h1' : (encryptChunksIO A key aad cs s k).1 = Res.ok := h1
-  rw [encrypt_chunks_eq A key aad cs s k fuel hf, ← h1']
-
-theorem dec_whole_chunks (A : Aead) (key aad : Bytes) (cs : Nat) (s : Src) (k : Snk) (fuel : Nat) (hf : s.inp.length + 1 ≤ fuel)
-    (hs : s.noFalseEof) (ws : List Bytes) (pres : Res) (hP : decryptChunks A key aad cs s.inp = (ws, pres)) :
-    ∃ res s' k' j q, decrypt.decrypt_chunks A s k key aad cs fuel = some (res, s', k') ∧
-      k'.out = k.out ++ (ws.take j).flatten ++ q ∧ j ≤ ws.length ∧
-      (q = [] ∨ (res = .ioWrite ∧ ∃ w, ws[j]? = some w ∧ q <+: w)) ∧
-      (res = .ok → pres = .ok ∧ j = ws.length ∧ q = []) := by
-  obtain ⟨j, q, h⟩ := decLoopIO_prefix A key aad cs (s.inp.length + 1) s.inp.length 0 s k _ _ _ ws pres hs
-    (Nat.le_refl _) (Nat.le_refl _) rfl hP
-  exact ⟨_, _, _, j, q, decrypt_chunks_eq A key aad cs s k fuel hf, h⟩
-
-theorem dec_release_order (A : Aead) (hA : A.Lawful) (key aad : Bytes) (hk : key.length = 32) (cs : Nat) (s : Src) (k : Snk)
-    (fuel : Nat) (hf : s.inp.length + 1 ≤ fuel) (hs : s.noFalseEof) (ws : List Bytes) (pres : Res)
-    (hP : decryptChunks A key aad cs s.inp = (ws, pres)) :
-    ∃ (res : Res) (s' : Src) (k' : Snk) (segs : List (List WLog)), decrypt.decrypt_chunks A s k key aad cs fuel = some (res, s', k') ∧
-      k'.log = segs.flatten.reverse ++ k.log ∧ LogSegs s.pos ws segs ∧
-      k'.out.length = k.out.length + (segs.flatten.map (·.n)).sum := by
-  obtain ⟨segs, h⟩ := decLoopIO_log A hA key aad hk cs (s.inp.length + 1) s.inp.length 0 s k _ _ _ ws pres hs
-    (Nat.le_refl _) (Nat.le_refl _) rfl hP
-  exact ⟨_, _, _, segs, decrypt_chunks_eq A key aad cs s k fuel hf, h⟩
-
-theorem dec_ioWrite (A : Aead) (key aad : Bytes) (cs : Nat) (s : Src) (k : Snk) (fuel : Nat) (hf : s.inp.length + 1 ≤ fuel)
-    (s' : Src) (k' : Snk) (h : decrypt.decrypt_chunks A s k key aad cs fuel = some (.ioWrite, s', k')) : ¬ k.faultFree := by
-  rw [decrypt_chunks_eq A key aad cs s k fuel hf, Option.some.injEq] at h
-  exact decLoopIO_ioWrite A key aad cs _ 0 s k s' k' h
-
-/-- `valid_file_format` as translated agrees with the hand-written `validFileFormat` whenever the two magic numbers are
-    the ones the model reads from the source (`Generated.decAsymMagic`, `decPassMagic`) -/
-theorem valid_file_format_eq (h : Bytes) :
-    decrypt.valid_file_format h =
-      if h = [101, 103, 107, 16] then .ok FileFormat.AsymV1 else if h = [101, 103, 107, 32] then .ok FileFormat.PassV1
-      else .error () := by
-  unfold decrypt.valid_file_format
-  by_cases h1 : h = [101, 103, 107, 16]
-  · simp [h1]
-  · by_cases h2 : h = [101, 103, 107, 32] <;> simp [h1, h2]
-
-
-/-! ### file level: `pass_encrypt`, `pass_decrypt` -/
-
-open Generated
-
-theorem scrypt_const (P : Prims) (pw salt : Bytes) : RsIO.scrypt P pw salt SCRYPT_N SCRYPT_R SCRYPT_P 32 = P.kdf pw salt := by
-  simp [RsIO.scrypt, SCRYPT_N, SCRYPT_R, SCRYPT_P, scryptN, scryptR, scryptP]
-
-open encrypt in
-theorem pass_encrypt_eq (P : Prims) (pw salt : Bytes) (ff : PassFileFormat) (s : Src) (k : Snk) (fuel : Nat)
-    (hf : s.inp.length + s.script.length + 2 ≤ fuel) :
-    pass_encrypt P.aead P s k pw salt ff fuel = some (passEncryptIO P pw salt s k) := by
-  unfold pass_encrypt passEncryptIO writeRecord
-  simp only [scrypt_const, RsIO.writeAll, RsIO.flush, show PASS_FILE_MAGIC = encPassMagic from rfl,
-    show CHUNK_SIZE = chunkSize from rfl]
-  rcases hw1 : Snk.writeAll (s.pos, s.nreads) _ k encPassMagic with ⟨_ | _, k1⟩
-  · simp [write_err, Except.mapError]
-  · simp only []
-    rcases hw2 : Snk.writeAll (s.pos, s.nreads) _ k1 salt with ⟨_ | _, k2⟩
-    · simp [write_err, Except.mapError]
-    · simp only []
-      rcases hfl : k2.flush with ⟨_ | _, k3⟩
-      · simp [write_err, Except.mapError]
-      · simp [Except.mapError, encrypt_chunks_eq P.aead _ _ _ s k3 fuel hf]
-        exact fun h => h.symm
-
-/-- `Res.format` is how the hand-written model classifies `DecryptError::Other("Invalid file format.")`; the translation
-    does not model messages, so it sees `Res.other` there -/
-def collapseFormat : Res → Res
-  | .format => .other
-  | r => r
-
-theorem valid_file_format_model (h : Bytes) :
-    decrypt.valid_file_format h = match validFileFormat h with
-      | some true => .ok FileFormat.AsymV1
-      | some false => .ok FileFormat.PassV1
-      | none => .error () := by
-  rw [valid_file_format_eq]
-  unfold validFileFormat
-  simp only [show decAsymMagic = [101, 103, 107, 16] from rfl, show decPassMagic = [101, 103, 107, 32] from rfl]
-  by_cases h1 : h = [101, 103, 107, 16]
-  · simp [h1]
-  · by_cases h2 : h = [101, 103, 107, 32] <;> simp [h1, h2]
-
-theorem decLoopIO_ne_format (A : Aead) (key aad : Bytes) (cs : Nat) :
-    ∀ (fuel ctr : Nat) (s : Src) (k : Snk), (decLoopIO A key aad cs fuel ctr s k).1 ≠ .format := by
-  intro fuel
-  induction fuel with
-  | zero => intro ctr s k; simp [decLoopIO]
-  | succ f ih =>
-    intro ctr s k
-    unfold decLoopIO
-    split
-    · simp
-    · simp only []
-      split
-      · simp
-      · split
-        · simp
-        · split
-          · simp
-          · split
-            · rename_i e s3 hp
-              split at hp
-              · split at hp <;> simp at hp
-                · rw [← hp.1]; simp
-                · rw [← hp.1]; simp
-                · split at hp <;> simp at hp
-                  rw [← hp.1]; simp
-              · simp at hp
-            · split
-              · simp
-              · split
-                · simp
-                · split
-                  · simp
-                  · exact ih _ _ _
-
-theorem collapse_decryptChunksIO (A : Aead) (key aad : Bytes) (cs : Nat) (s : Src) (k : Snk) :
-    collapseFormat (decryptChunksIO A key aad cs s k).1 = (decryptChunksIO A key aad cs s k).1 := by
-  have h := decLoopIO_ne_format A key aad cs (s.inp.length + 1) 0 s k
-  unfold decryptChunksIO
-  generalize (decLoopIO A key aad cs (s.inp.length + 1) 0 s k).1 = r at h
-  cases r <;> first | rfl | exact absurd rfl h
-
-open decrypt in
-theorem pass_decrypt_eq (P : Prims) (pw : Bytes) (ff : PassFileFormat) (s : Src) (k : Snk) (fuel : Nat)
-    (hf : s.inp.length + 1 ≤ fuel) :
-    pass_decrypt P.aead P s k pw ff fuel =
-      some (collapseFormat (passDecryptIO P pw s k).1, (passDecryptIO P pw s k).2.1, (passDecryptIO P pw s k).2.2) := by
-  unfold pass_decrypt passDecryptIO
-  cases ff
-  simp only [bne_self_eq_false, Bool.false_eq_true, if_false, Rs.Step.andThen_cont, RsIO.readExact, List.length_replicate,
-    scrypt_const, show CHUNK_SIZE = chunkSize from rfl]
-  rcases hr1 : Src.readExact (s.fuel 4) s 4 with ⟨_ | magic, s1⟩
-  · simp [Except.mapError, dec_read_err, collapseFormat]
-  · simp only [Except.mapError, valid_file_format_model]
-    obtain ⟨m1, hm1, hi1, _⟩ := Src.readExact_frame _ _ _ _ _ hr1
-    rcases hv : validFileFormat magic with _ | _ | _
-    · simp [errors.From_FileFormatError_for_DecryptError, collapseFormat]
-    · simp only []
-      rcases hr2 : Src.readExact (s1.fuel 32) s1 32 with ⟨_ | salt, s2⟩
-      · simp [dec_read_err, collapseFormat]
-      · obtain ⟨m2, hm2, hi2, _⟩ := Src.readExact_frame _ _ _ _ _ hr2
-        have hfuel : s2.inp.length + 1 ≤ fuel := by
-          rw [hi2, hi1, List.length_drop, List.length_drop]; omega
-        simp only [decrypt_chunks_eq P.aead _ _ _ s2 k fuel hfuel, collapse_decryptChunksIO]
-        simp
-        intro h; exact h.symm
-    · simp [collapseFormat]
-
-/-! ### file level: `key_encrypt`, `key_decrypt` -/
-
-theorem hkdf_const (P : Prims) (ikm info : Bytes) : RsIO.hkdfSha256 P [] ikm info 32 = P.hkdfFile ikm info := by
-  simp [RsIO.hkdfSha256]
-
-open encrypt in
-theorem key_encrypt_eq (P : Prims) (rand : Nat → Bytes) (s spk rs e epk pk : Bytes) (ff : AsymFileFormat) (src : Src) (k : Snk)
-    (fuel : Nat) (hf : src.inp.length + src.script.length + 2 ≤ fuel) :
-    key_encrypt P.aead P rand src k s spk rs (some e) (some epk) (some pk) ff fuel =
-      some (keyEncryptIO P s spk rs e epk pk src k) := by
-  unfold key_encrypt keyEncryptIO writeRecord
-  simp only [RsIO.noiseEncrypt, hkdf_const, RsIO.writeAll, RsIO.flush, show PROLOGUE = encPrologue from rfl,
-    show CHUNK_SIZE = chunkSize from rfl]
-  rcases hn : Noise.writeMessage P encPrologue s spk rs e epk pk with err | ⟨msg, h⟩
-  · simp [Except.mapError]
-  · simp only [Except.mapError]
-    rcases hw1 : Snk.writeAll (src.pos, src.nreads) _ k encPrologue with ⟨_ | _, k1⟩
-    · simp [write_err]
-    · simp only []
-      rcases hw2 : Snk.writeAll (src.pos, src.nreads) _ k1 msg with ⟨_ | _, k2⟩
-      · simp [write_err]
-      · simp only []
-        rcases hfl : k2.flush with ⟨_ | _, k3⟩
-        · simp [write_err]
-        · simp [encrypt_chunks_eq P.aead _ _ _ src k3 fuel hf]
-          exact fun h => h.symm
-
-/-- how the hand-written model's pair (result class, sender key on success) reads as the Rust `Result<PublicKey, DecryptError>` -/
-def keyResult : Res → Option Bytes → Except Res Bytes
-  | _, some spk => .ok spk
-  | r, none => .error (collapseFormat r)
-
-open decrypt in
-theorem key_decrypt_eq (P : Prims) (r rpk : Bytes) (ff : AsymFileFormat) (s : Src) (k : Snk) (fuel : Nat)
-    (hf : s.inp.length + 1 ≤ fuel) :
-    key_decrypt P.aead P s k r rpk ff fuel =
-      some (keyResult (keyDecryptIO P r rpk s k).1 (keyDecryptIO P r rpk s k).2.2.2,
-        (keyDecryptIO P r rpk s k).2.1, (keyDecryptIO P r rpk s k).2.2.1) := by
-  unfold key_decrypt keyDecryptIO
-  cases ff
-  simp only [bne_self_eq_false, Bool.false_eq_true, if_false, Rs.Step.andThen_cont, RsIO.readExact, List.length_replicate,
-    hkdf_const, show CHUNK_SIZE = chunkSize from rfl, show (128 : Nat) = handshakeLen from rfl]
-  rcases hr1 : Src.readExact (s.fuel 4) s 4 with ⟨_ | magic, s1⟩
-  · simp [Except.mapError, dec_read_err, collapseFormat, keyResult]
-  · simp only [Except.mapError, valid_file_format_model]
-    obtain ⟨m1, hm1, hi1, _⟩ := Src.readExact_frame _ _ _ _ _ hr1
-    rcases hv : validFileFormat magic with _ | _ | _
-    · simp [errors.From_FileFormatError_for_DecryptError, collapseFormat, keyResult]
-    · simp [collapseFormat, keyResult]
-    · simp only []
-      rcases hr2 : Src.readExact (s1.fuel handshakeLen) s1 handshakeLen with ⟨_ | msg, s2⟩
-      · simp [dec_read_err, collapseFormat, keyResult]
-      · obtain ⟨m2, hm2, hi2, _⟩ := Src.readExact_frame _ _ _ _ _ hr2
-        have hfuel : s2.inp.length + 1 ≤ fuel := by
-          rw [hi2, hi1, List.length_drop, List.length_drop]; omega
-        simp only [RsIO.noiseDecrypt]
-        rcases hnr : Noise.readMessage P magic r rpk msg with err | ⟨pk, spk, h⟩
-        · simp [collapseFormat, keyResult]
-        · by_cases hl : pk.length ≠ 32
-          · simp [hl, collapseFormat, keyResult]
-          · simp only [hl, if_false, decrypt_chunks_eq P.aead _ _ _ s2 k fuel hfuel]
-            have hc := collapse_decryptChunksIO P.aead (P.hkdfFile pk h) [] chunkSize s2 k
-            by_cases hok : (decryptChunksIO P.aead (P.hkdfFile pk h) [] chunkSize s2 k).1 = Res.ok
-            · simp [hok, keyResult]
-            · simp [hok, keyResult, hc]
-end StreamSrc
-end Kestrel
+import KestrelProofs.StreamSrcEnc
+import KestrelProofs.StreamSrcDec
